@@ -197,6 +197,8 @@ let () =
           | L [A "unrollok"; p; i] -> print_string (if unroll_ok_proc (sym i) (proc p) then "ok\n" else "outside\n")
           | L [A "cut"; p; i; i2; e] -> print_string (sproc (cut_proc (sym i) (sym i2) (expr e) (proc p)) ^ "\n")
           | L [A "cutok"; p; i; i2; e] -> print_string (if cut_ok_proc (sym i) (sym i2) (expr e) (proc p) then "ok\n" else "outside\n")
+          | L [A "fission"; p; i; k] -> print_string (sproc (fission_proc (sym i) (nat_of_int (ios k)) (proc p)) ^ "\n")
+          | L [A "fissionok"; p; i; k] -> print_string (if fission_ok_proc (sym i) (nat_of_int (ios k)) (proc p) then "ok\n" else "outside\n")
           | L [A "reorder"; p; i] -> print_string (sproc (reorder_proc (sym i) (proc p)) ^ "\n")
           | L [A "reorderok"; p; i] -> print_string (if reorder_ok_proc (sym i) (proc p) then "ok\n" else "outside\n")
           | L [A "shift"; p; x; e] -> print_string (sproc (shift_proc (sym x) (expr e) (proc p)) ^ "\n")
